@@ -252,6 +252,97 @@ def refRun {σ η} (L : Loader σ η) (cfg : Cfg) : σ → List (Event σ) → L
   | _, .store s' :: evs => refRun L cfg s' evs
   | s, .req r :: evs => obsOf (refGetTemplate L cfg s r) :: refRun L cfg s evs
 
+/-- did the request return the **cached object itself** (a hit that was not reloaded)? The caller then
+shares the object with every earlier caller that was handed it. -/
+def servedCached {σ η} (L : Loader σ η) (cfg : Cfg) (c : Cache (Tpl η)) (s : σ) (r : Req) : Bool :=
+  match (c.getitem (cacheKey cfg r.name r.ctx r.kw)).2 with
+  | none => false
+  | some cached =>
+    if cfg.autoReload then
+      match L.uptodate s r.mode cached.h with
+      | .ok true => true
+      | _ => false
+    else true
+
+/-- for every request of a history: was the cached object itself returned? -/
+def runShared {σ η} (L : Loader σ η) (cfg : Cfg) : Cache (Tpl η) → σ → List (Event σ) → List Bool
+  | _, _, [] => []
+  | c, _, .store s' :: evs => runShared L cfg c s' evs
+  | c, s, .req r :: evs => servedCached L cfg c s r :: runShared L cfg (getTemplate L cfg c s r).1 s evs
+
+/-! ## concurrent requests (`thread_safe=True`)
+
+`ThreadSafeLRUCache` makes each cache operation atomic, but `_check_cache` is **not** one critical
+section: look-up, `is_up_to_date()`, `load_func()` and the store are separate steps, and other threads
+(and edits of the sources) may run in between. A thread is a request plus a program counter; a
+schedule says which thread takes its next step, or that the store changes. -/
+
+inductive PC (η : Type) where
+  | start                                   -- about to do `self.cache[cache_key]`
+  | check (cached : Tpl η)                  -- about to call `cached_template.is_up_to_date()`
+  | loading                                 -- about to call `load_func()`
+  | storing (t : Tpl η)                     -- about to do `self.cache[cache_key] = template`
+  | done (o : Except Err (Tpl η))           -- returned / raised
+
+structure Thread (η : Type) where
+  r  : Req
+  pc : PC η
+
+/-- `cached_template.globals = …` on the object the thread holds: it changes the cache entry only if
+that object is still the entry (objects are told apart by their text identity) -/
+def Cache.rebind {η} (c : Cache (Tpl η)) (k : Str) (cached : Tpl η) (g : Globals) : Cache (Tpl η) :=
+  { c with items := c.items.map (fun p =>
+      if p.1 = k ∧ p.2.text = cached.text ∧ p.2.full = cached.full then (p.1, { p.2 with globals := g }) else p) }
+
+/-- one atomic step of one thread (synchronous `_check_cache`) on the shared cache and current store -/
+def threadStep {σ η} (L : Loader σ η) (cfg : Cfg) (c : Cache (Tpl η)) (s : σ) (th : Thread η) :
+    Cache (Tpl η) × Thread η :=
+  let key := cacheKey cfg th.r.name th.r.ctx th.r.kw
+  let g := makeGlobals cfg.eg (some (makeGlobals cfg.eg th.r.globals))
+  let hit (c : Cache (Tpl η)) (cached : Tpl η) : Cache (Tpl η) × Thread η :=
+    (c.rebind key cached g, { th with pc := .done (.ok { cached with globals := g }) })
+  match th.pc with
+  | .start =>
+    match c.getitem key with
+    | (c1, none) => (c1, { th with pc := .loading })
+    | (c1, some cached) => if cfg.autoReload then (c1, { th with pc := .check cached }) else hit c1 cached
+  | .check cached =>
+    match L.uptodate s th.r.mode cached.h with
+    | .error e => (c, { th with pc := .done (.error e) })
+    | .ok false => (c, { th with pc := .loading })
+    | .ok true => hit c cached
+  | .loading =>
+    match refGetTemplate L cfg s th.r with
+    | .error e => (c, { th with pc := .done (.error e) })
+    | .ok t => (c, { th with pc := .storing t })
+  | .storing t => (c.setitem key t, { th with pc := .done (.ok t) })
+  | .done o => (c, { th with pc := .done o })
+
+structure CState (σ η : Type) where
+  cache   : Cache (Tpl η)
+  store   : σ
+  threads : List (Thread η)
+
+inductive CEvent (σ : Type) where
+  | step (i : Nat)          -- thread `i` takes its next step
+  | store (s : σ)           -- the sources change
+
+def cstep {σ η} (L : Loader σ η) (cfg : Cfg) (st : CState σ η) : CEvent σ → CState σ η
+  | .store s => { st with store := s }
+  | .step i =>
+    match st.threads[i]? with
+    | none => st
+    | some th =>
+      let (c', th') := threadStep L cfg st.cache st.store th
+      { st with cache := c', threads := st.threads.set i th' }
+
+def crun {σ η} (L : Loader σ η) (cfg : Cfg) : CState σ η → List (CEvent σ) → CState σ η
+  | st, [] => st
+  | st, e :: es => crun L cfg (cstep L cfg st e) es
+
+def cinit {σ η} (cap : Nat) (s : σ) (rs : List Req) : CState σ η :=
+  { cache := Cache.empty cap, store := s, threads := rs.map (fun r => { r := r, pc := .start }) }
+
 /-! ## the namespace a request selects, as `cache_key` resolves it -/
 
 def resolveNs (cfg : Cfg) (ctx : Option (Option Str)) (kw : Option Str) : Option Str :=
@@ -337,6 +428,21 @@ def choiceLoader : Loader Store Handle where
       | some v => .ok ((name, v), name, { idx := 1, full := name, ver := v, mode := m })
       | none => .error .notFound
   uptodate s _ h := .ok (s h.idx h.full == some h.ver)
+
+/-- `FileSystemLoader([dir0, dir1])` (after the fixes): the first search path that has the file wins;
+the `uptodate` closure watches only the file that was found. -/
+def fs2Loader : Loader Store Handle where
+  getSource s m name _ _ :=
+    match s 0 name with
+    | some v => .ok ((name, v), name, { idx := 0, full := name, ver := v, mode := m })
+    | none =>
+      match s 1 name with
+      | some v => .ok ((name, v), name, { idx := 1, full := name, ver := v, mode := m })
+      | none => .error .notFound
+  uptodate s m h :=
+    match m, h.mode with
+    | .sync, .async => .ok false
+    | _, _ => .ok (s h.idx h.full == some h.ver)
 
 /-- the entry the namespace-aware test loader looks up: `f"{ns}/{name}"`, keyword argument first,
 then the context global, else the bare name -/
